@@ -433,6 +433,15 @@ func (m *Manager) lock() {
 				acctInfo.acctKeyPriv.Zero()
 			}
 			acctInfo.acctKeyPriv = nil
+
+			// The last address objects of an account are not
+			// necessarily the ones held in the address cache.
+			if a, ok := acctInfo.lastExternalAddr.(*managedAddress); ok {
+				a.lock()
+			}
+			if a, ok := acctInfo.lastInternalAddr.(*managedAddress); ok {
+				a.lock()
+			}
 		}
 	}
 
@@ -443,6 +452,10 @@ func (m *Manager) lock() {
 			case *managedAddress:
 				addr.lock()
 			case *scriptAddress:
+				addr.lock()
+			case *witnessScriptAddress:
+				addr.lock()
+			case *taprootScriptAddress:
 				addr.lock()
 			}
 		}
